@@ -39,7 +39,8 @@ ASSUMPTIONS = [
     "closing the output file does not fail (an OSError from close/flush would escape raw)",
     "iter(iter_data) succeeds (the argument is iterable); a first next() raising anything but StopIteration escapes "
     "raw (outside the stated contract, theorem dump_many_only_these_escape lists it)",
-    "the _reissue_warnings decorator is transparent for exceptions (warnings are not turned into errors)",
+    "the _reissue_warnings decorator is transparent for exceptions; its body is pinned by theorem reissue_wrapper_shape "
+    "and the real cases are also run under the caller filter `error` (warnings as errors)",
     *prep.ASSUMPTIONS,
 ]
 TIME_LIMIT = {"quick": 900, "thorough": 3600}
@@ -242,6 +243,12 @@ def rejection_variants(fmt, base):
     if fmt == "json_qcschema":
         out.append(("no-schema-name", variant(base, extra={k: v for k, v in base.extra.items() if k != "schema_name"}),
                     lambda allow: True))
+        # only three schema names can be written; every other value (the unimplemented basis schema, the legacy
+        # spellings the *loader* accepts, case variants, padded names) must be refused before the file is opened
+        for name in ("qcschema_basis", "not_a_schema", "qc_schema_molecule", "qc_schema_input", "qc_schema_output",
+                     "QCSCHEMA_MOLECULE", "qcschema_molecule ", "", "qcschema"):
+            out.append((f"schema-name={name!r}", variant(base, extra={**base.extra, "schema_name": name}),
+                        lambda allow: True))
         return out
     if fmt not in ("fchk", "molden", "molekel", "wfn", "wfx"):
         return out
@@ -334,8 +341,11 @@ def measure(mod, fn, data, allow):
     return req, at, prep, (len(rec.chunks), fail), rec.chunks
 
 
-def real_dump(fmt, fn, datas, allow, fs_spec, workdir, names):
-    """Run the real dump_one / dump_many on a real path with traced open(); returns (outcome, bytes|None, trace, fd delta)."""
+def real_dump(fmt, fn, datas, allow, fs_spec, workdir, names, wmode="ignore"):
+    """Run the real dump_one / dump_many on a real path with traced open(); returns (outcome, bytes|None, trace, fd delta).
+
+    ``wmode`` is the caller's warning filter: "ignore", or "error" (warnings as errors, as under ``python -W error``
+    and in iodata's own pytest configuration)."""
     from iodata import api
 
     mod = api.FORMAT_MODULES[fmt]
@@ -356,7 +366,7 @@ def real_dump(fmt, fn, datas, allow, fs_spec, workdir, names):
     fd0 = fl.fd_count()
     try:
         with fl.patched_io(tr), warnings.catch_warnings():
-            warnings.simplefilter("ignore")
+            warnings.simplefilter(wmode)
             try:
                 if fn == "dump_one":
                     api.dump_one(datas[0], path, fmt=fmt, allow_changes=allow)
@@ -547,6 +557,26 @@ def check_real_case(case, work):
     return None
 
 
+def check_real_case_werror(case, work):
+    """The same call with the caller's filter turning warnings into errors: whatever is raised must still be one of
+    the documented classes, and a failure before the file was opened must leave the target's bytes alone."""
+    fmt, fn, label, frames, idx, allow, fs_spec, sub, rej, names = case
+    out, content, trace, nw, dfd = real_dump(fmt, fn, frames, allow, fs_spec, work, names, wmode="error")
+    orig = None if fs_spec == "absent" else "".join(t + ";" for t in fs_spec.split("."))
+    cls = out.split(":")[1] if out.startswith("raise:") else None
+    where = f"{fmt}.{fn}"
+    if dfd != 0:
+        return (f"fd-leak:{where}:warnings-as-errors", f"{where}: {dfd} file descriptors left open ({label}, -W error)")
+    if cls is not None and cls not in ALLOWED_DUMP:
+        return (f"escape:{where}:{cls}:warnings-as-errors",
+                f"{where}: {cls} escaped under warnings-as-errors ({label}, allow_changes={allow}); target "
+                f"{'changed' if content != orig else 'unchanged'}")
+    if cls == "PrepareDumpError" and content != orig and idx == 0:
+        return (f"preflight-clobber:{where}:warnings-as-errors",
+                f"{where}: PrepareDumpError under warnings-as-errors but the target changed ({label})")
+    return None
+
+
 def _case_key(case):
     fmt, fn, label, frames, idx, allow, fs_spec, sub, rej, names = case
     return {"kind": "real", "fmt": fmt, "fn": fn, "label": label, "idx": idx, "allow": allow, "fs": fs_spec}
@@ -730,6 +760,13 @@ def search(ctx):
             ctx.count("search-real", key, "ok" if r is None else r[0].split(":")[0], nontrivial=case[2] != "intact", sample=key)
             if r:
                 ctx.fail(r[0], r[1], key)
+            # the caller's warning filter is a configuration of the same call: warnings as errors
+            if case[5] or case[2] == "intact":
+                r = check_real_case_werror(case, work)
+                key = dict(key, warnings="error")
+                ctx.count("search-real-werror", key, "ok" if r is None else r[0].split(":")[0], nontrivial=case[2] != "intact", sample=key)
+                if r:
+                    ctx.fail(r[0], r[1], key)
         _search_misc(ctx, work)
     finally:
         shutil.rmtree(work, ignore_errors=True)
@@ -743,11 +780,13 @@ def replay(ctx, obj):
     work = tempfile.mkdtemp(prefix="vh-c08p-")
     try:
         if inp.get("kind") == "real":
+            werr = inp.get("warnings") == "error"
+            inp = {k: v for k, v in inp.items() if k != "warnings"}
             case = _find_case(ctx, inp)
             if case is None:
                 ctx.tier = "thorough"
                 case = _find_case(ctx, inp)
-            return case is not None and check_real_case(case, work) is not None
+            return case is not None and (check_real_case_werror if werr else check_real_case)(case, work) is not None
         sub = Ctx_proxy(ctx)
         _search_misc(sub, work)
         return any(f["input"] == inp for f in sub.failures)
